@@ -481,7 +481,7 @@ func operationNameFor(rmid, info uint8, magic uint16) string {
 		case XLOG_HEAP_HOT_UPDATE | XLOG_HEAP_INIT_PAGE:
 			return "HOT_UPDATE+INIT"
 		case XLOG_HEAP_CONFIRM:
-			return "CONFIRM"
+			return "HEAP_CONFIRM" // the name heap_identify gives it
 		case XLOG_HEAP_LOCK:
 			return "LOCK"
 		case XLOG_HEAP_INPLACE:
@@ -533,7 +533,7 @@ func operationNameFor(rmid, info uint8, magic uint16) string {
 		case XLOG_XACT_ASSIGNMENT:
 			return "ASSIGNMENT"
 		case 0x60:
-			return "INVALIDATIONS"
+			return "INVALIDATION" // XLOG_XACT_INVALIDATIONS; xact_identify prints the singular
 		}
 	case RM_XLOG_ID:
 		switch info & 0xF0 {
